@@ -64,7 +64,11 @@ def run(ck):
             m = tcommon.min_eig(D2 - D); scale = np.abs(D2).max()
             ck.case(key=("int", label, round(cut, 5), k, delta, pre.round(10).tolist()), nontrivial=True, kind="interstitial",
                     sample={"crystal": label, "class": k, "delta": delta, "min_eig_dD": float(m), "scale": float(scale)} if nint <= 2 else None)
-            if m < -1e-9 * scale:
+            # rounding: the uncorrelated term and the correlation correction are each of the size of the FASTEST jump's contribution
+            # and may cancel (a fast jump inside a cage does not contribute to D): allow 1e-12 of that size besides 1e-9 of D
+            rho_ = d.siteprob(pre, bE); rl_ = d.ratelist(pre, bE, preT, bET2)
+            d0mag = sum(0.5 * rho_[i] * r * float(np.dot(dx, dx)) for jl, rr in zip(jn, rl_) for ((i, j), dx), r in zip(jl, rr))
+            if m < -(1e-9 * scale + 1e-12 * d0mag):
                 ck.violation("lowering interstitial TS class %d by %.3g decreased D: min eig of change %.3g (scale %.3g)" % (k, delta, m, scale),
                              {"crystal": repr(crys), "chem": chem, "cutoff": cut, "pre": pre.tolist(), "betaene": bE.tolist(), "preT": preT.tolist(),
                               "betaeneT": bET.tolist(), "class": k, "delta": delta, "D": D.tolist(), "D2": D2.tolist()}, key="c05-interstitial")
